@@ -301,5 +301,13 @@ class P8PNGFormatter(BaseFormatter):
 
         new_rows = get_pngdata_from_picodata(picodata, img_data, attrs)
 
+        # png.Reader reports a pHYs chunk as 'physical', which png.Writer
+        # takes as three separate arguments.
+        physical = attrs.pop('physical', None)
+        if physical is not None:
+            attrs['x_pixels_per_unit'] = physical.x
+            attrs['y_pixels_per_unit'] = physical.y
+            attrs['unit_is_meter'] = physical.unit_is_meter
+
         wr = png.Writer(width, height, **attrs)
         wr.write(outstr, new_rows)
